@@ -112,6 +112,16 @@ STRIP_METHODS = {"clone", "as_ref", "to_owned", "into", "as_mut", "borrow", "to_
 STRIP_FUNCS = {"mk_rc", "mk_box"}
 
 
+def _sub(env):
+    sub = Env()
+    if env is not None:
+        sub.names = dict(env.names)
+        for a in ("strip", "cdepth"):
+            if hasattr(env, a):
+                setattr(sub, a, getattr(env, a))
+    return sub
+
+
 def sexpr(n, env=None, depth=0):
     """Canonical S-expression of an expression: resolved callees, provenance names for locals."""
     if n is None:
@@ -163,8 +173,7 @@ def sexpr(n, env=None, depth=0):
             return sexpr(n["expr"], env, depth + 1)
         sub = env
         if env is not None:
-            sub = Env()
-            sub.names = dict(env.names)
+            sub = _sub(env)
             sub.bind_lets(n)
         if n.get("expr") is not None and all(H.kind(s) == "Let" and s.get("els") is None for s in n["stmts"]):
             return sexpr(n["expr"], sub, depth + 1)
@@ -172,9 +181,25 @@ def sexpr(n, env=None, depth=0):
     if k == "Match" and H.is_try(n):
         return "(? %s)" % sexpr(H.try_inner(n), env, depth + 1)
     if k == "If":
-        return "(if %s %s %s)" % (sexpr(n["c"], env, depth + 1), sexpr(n["t"], env, depth + 1), sexpr(n.get("e"), env, depth + 1))
+        c = H.peel(n["c"])
+        tenv = env
+        if H.kind(c) == "LetExpr":
+            base = sexpr(c["init"], env, depth + 1)
+            tenv = _sub(env)
+            for l, p in pat_paths(c["pat"]).items():
+                tenv.names[l] = "%s/%s" % (base, p) if p else base
+        return "(if %s %s %s)" % (sexpr(n["c"], env, depth + 1), sexpr(n["t"], tenv, depth + 1), sexpr(n.get("e"), env, depth + 1))
+    if k == "LetExpr":
+        return "(let %s %s)" % (pat_shape(n["pat"]), sexpr(n["init"], env, depth + 1))
     if k == "Closure":
-        return "(closure %s)" % sexpr(n["body"], env, depth + 1)
+        # parameters are named by closure nesting depth and position, never by their source name
+        sub = _sub(env)
+        d = getattr(sub, "cdepth", 0)
+        sub.cdepth = d + 1
+        for i, p in enumerate(n.get("params") or []):
+            for l, pth in pat_paths(p).items():
+                sub.names.setdefault(l, "$c%d.%d%s" % (d, i, ("/" + pth) if pth else ""))
+        return "(closure %s)" % sexpr(n["body"], sub, depth + 1)
     if k == "Ret":
         return "(return %s)" % sexpr(n.get("e"), env, depth + 1)
     if k == "Match":
@@ -233,6 +258,17 @@ class ArmEnv(Env):
     closure parameters and the patterns of nested matches (prefix = canonical scrutinee)."""
 
     def absorb(self, node, rounds=2):
+        cdepth = {}
+        stack = [(node, getattr(self, "cdepth", 0))]
+        while stack:
+            x, d = stack.pop()
+            if not isinstance(x, dict):
+                continue
+            if H.kind(x) == "Closure":
+                cdepth[id(x)] = d
+                d += 1
+            for c in H.children(x):
+                stack.append((c, d))
         for _ in range(rounds):
             for st in H.walk(node):
                 k = H.kind(st)
@@ -269,9 +305,10 @@ class ArmEnv(Env):
                             for l, pth in pat_paths(clo["params"][idx]).items():
                                 self.names[l] = "%s/%s" % (base, pth) if pth else base
                 elif k == "Closure":
+                    d = cdepth.get(id(st), 0)
                     for i, p in enumerate(st["params"]):
-                        for l, pth in pat_paths(p, "C%d" % i).items():
-                            self.names.setdefault(l, "$" + pth)
+                        for l, pth in pat_paths(p).items():
+                            self.names.setdefault(l, "$c%d.%d%s" % (d, i, ("/" + pth) if pth else ""))
 
 
 def clean(s):
